@@ -27,7 +27,7 @@ set_option hygiene false in
 /-- evaluate both sides on a concrete shape, abstract the terms of the operands, split on them -/
 macro "df_close" : tactic => `(tactic| (
     simp only [DistributiveFactorOutRule_get_type, dfStep, termWithVar, isinstance_some, left_bin, right_bin,
-      left_const, left_var, left_un, right_const, right_var, right_un, get_term_ex_none, get_term_ex_binL,
+      left_const, left_var, left_un, right_const, right_var, right_un, get_term_ex_agree, get_term_ex_none, get_term_ex_binL,
       get_term_ex_binR, get_term_ex_un, List.any, Cls.holds, Bool.or_false,
       show (Bop.add == Bop.pow) = false from rfl, ← htl, ← htr, ← htlr, ← htrl]
     try generalize getTermEx false lrr = tlrr
